@@ -204,7 +204,7 @@ fn cmd_shard(args: &[String]) -> i32 {
     let n: u32 = args[6].parse().unwrap_or(1);
     let outp = args[7].clone();
     let _ = frame::PARTIAL_OUT.set(outp.clone());
-    let mut ctx = Ctx { prop: prop.clone(), tier, seed, shard: idx, nshards: n, out: ShardOut::default(), t0: util::now_s(), budget_s: budget(&prop, tier) };
+    let mut ctx = Ctx { prop: prop.clone(), tier, seed, shard: idx, nshards: n, out: ShardOut::default(), t0: util::now_s(), budget_s: budget(&prop, tier), phase_deadline: f64::MAX };
     run_shard(&mut ctx);
     ctx.out.count("log_lines_of_the_store_formatted(logger_installed_at_trace_level)", logsink::lines());
     let s = serde_json::to_string(&ctx.out.to_json()).unwrap_or_default();
